@@ -227,6 +227,7 @@ fn check_bessel<T: Jetty<F = f64> + BesselDual>(tname: &str, ctx: &Ctx, shard: u
 
 fn main() {
     let ctx = Ctx::from_args("C10");
+    ndv_checks::warm_up_f32();
     let acc = ctx.parallel(|shard, nshards| {
         let mut acc = Acc::new();
         let mut t = 0u64;
